@@ -100,7 +100,7 @@ def series_dict(s):
 def canon_obs(name, r):
     """Observed result of aggregation `name` -> float | dict."""
     base = name.split("@")[0]
-    if base in ("vc",) or base.startswith("g"):
+    if base in ("vc",) or base.startswith("g") or base.endswith(".gsum"):
         if isinstance(r, pd.DataFrame):
             r = r["x"]
         return series_dict(r)
@@ -109,10 +109,21 @@ def canon_obs(name, r):
     return num(r)
 
 
+TRANSFORMS = {          # element-wise operators on the window object with the window as the RIGHT operand (reflected operators)
+    "tr.rsub.sum": (lambda w: 10 - w.x, "sum"), "tr.radd.mean": (lambda w: 1 + w.x, "mean"), "tr.rmul.sum": (lambda w: 2 * w.x, "sum"),
+    "tr.sub.sum": (lambda w: w.x - 10, "sum"), "tr.rsub.count": (lambda w: 10 - w.x, "count"),
+}
+
+
 def expected(name, win):
     """pandas on the window slice."""
     base = name.split("@")[0]
     x = win["x"]
+    if base in TRANSFORMS:
+        tr, agg = TRANSFORMS[base]
+        return num(getattr(tr(win), agg)())
+    if base == "tr.rk.gsum":
+        return series_dict(win.groupby(3 - win["k"])["x"].sum())
     if base == "sum":
         return num(x.sum())
     if base == "count":
@@ -256,6 +267,11 @@ def _gsel(kind):
 
 def api_pipeline(name, sdf, w):
     base, _, gk = name.partition("@")
+    if base in TRANSFORMS:
+        tr, agg = TRANSFORMS[base]
+        return getattr(tr(w), agg)()
+    if base == "tr.rk.gsum":
+        return w.groupby(3 - w.k).x.sum()
     if base == "sum":
         return w.x.sum()
     if base == "count":
@@ -306,6 +322,7 @@ API_NAMES = (
     + [b + "@" + g for b in ["gsum", "gcount", "gsize", "gmean", "gvar0", "gvar1", "gstd1"]
        for g in ["col", "list", "wser", "sser", "ndarr"]]
     + ["gsum@frame", "gmean@frame", "gcount@frame"]
+    + sorted(TRANSFORMS) + ["tr.rk.gsum"]
 )
 
 
